@@ -36,5 +36,6 @@ def obligations(tier):
 
 
 def solver_queries(tier, scratch):
+    from vf import lr_lemmas
     from vf import rx_queries as rq
-    return rq.identifier_queries(scratch, "C01", 16 if tier == "quick" else 40)
+    return rq.identifier_queries(scratch, "C01", 16 if tier == "quick" else 40) + lr_lemmas.run_lemmas("C01", tier, scratch)
